@@ -147,6 +147,7 @@ func runC17(e *Env) error {
 	c17Flags(e, viol, &mu)
 	c17AlterFlags(e, viol, &mu)
 	c17Down(e, pool, viol, &mu)
+	c17Graphs(e, viol, &mu)
 	return nil
 }
 
